@@ -273,5 +273,13 @@ func genC07(repo string) (string, error) {
 			return "", err
 		}
 	}
+	// the layer the driver puts regions through: BasicCluster.PutRegion (keeps the cached term, then SetRegion)
+	bcf, err := goast.Load(repo, "server/core/basic_cluster.go")
+	if err != nil {
+		return "", err
+	}
+	if err := o.srcDef(bcf, "BasicCluster", "PutRegion", "src_bc_PutRegion"); err != nil {
+		return "", err
+	}
 	return o.sb.String(), nil
 }
